@@ -80,16 +80,16 @@ def step32 (st : St) (cmd : List String) (got : String) : Option (St × Verdict)
       if cnt > 1048576 || step == 0 || (cnt > 0 && start + (cnt - 1) * step ≥ U32) then some (skipV st got)
       else some (mut32 st x got (fun s => BSet.union s (ofVals ((List.range cnt).map fun i => start + i * step))))
     | _, _, _ => some (skipV st got)
-  | ["addmanyfrom", x, v, n] =>
-    match nat? v, nat? n, st.bm[x]? with
-    | some v, some n, some s =>
-      if v ≥ U32 || n > 100000 then some (skipV st got)
+  | "addmanyfrom" :: x :: v :: n :: rest =>
+    match nat? v, nat? n, st.bm[x]?, (match rest with | [] => some 2 | [t] => nat? t | _ => none) with
+    | some v, some n, some s, some step =>
+      if v ≥ U32 || n > 100000 || step == 0 || step > 1048576 then some (skipV st got)
       else match BSet.nextValue s v with
         | none => some (st, expect "none" got)
         | some m =>
-          let vals := ((List.range (n + 1)).map fun i => m + 2 * i).filter (· < U32)
+          let vals := ((List.range (n + 1)).map fun i => m + step * i).filter (· < U32)
           some (mut32 st x got (fun s => BSet.union s (ofVals vals)))
-    | _, _, _ => some (skipV st got)
+    | _, _, _, _ => some (skipV st got)
   | "addmany" :: x :: vs =>
     match nats? vs with
     | some l => if l.all (· < U32) then some (mut32 st x got (fun s => BSet.union s (ofVals l)))
